@@ -3,7 +3,8 @@
  "name": "set_inode_xattr",
  "props": ["C18"],
  "level": "U/iter",
- "tier": "quick",
+ "tier": "wip",
+ "tier_after_hooks": "quick",
  "harness": "h_set_inode_xattr",
  "loop_contracts": true,
  "replace": ["ext2fs_get_mem", "ext2fs_free_mem"],
